@@ -34,10 +34,10 @@ Proof. exact key_collision_refuted. Qed.
 
 (* the key attributes of a stored item equal the key under which it is retrievable, in every state reachable by a
    history (any interpreter, both SDKs) in which no UpdateItem changes a key attribute (UK; an update that does is the
-   known finding C13-2) and UpdateTable does not re-type the key attributes (EK) *)
+   known finding C13-2); UpdateTable can not re-type the key attributes (fix c854008) *)
 Theorem C13_stored_under_own_key_reachable :
   forall lm lu sdk ops cn tn c t,
-    run_env EK (UK lu) lm lu sdk [] ops ->
+    run_env (UK lu) lm lu sdk [] ops ->
     lookup cn (fst (run lm lu sdk [] ops)) = Some c -> lookup tn (c_tables c) = Some t ->
     TInv t /\ (forall k it, lookup k (t_data t) = Some it -> get_key (t_ks t) (t_defs t) it = inr k) /\
     secondary (t_ks t) = false.
